@@ -162,6 +162,8 @@ func runC09(c *Ctx) {
 	c.ruleIgnoreIdentity()
 	c.ruleNilElem("C09.nilelem")
 	c.ruleSweepStoresFiltered("C09.value")
+	c.ruleSweepTaggable("C09.handlers")
+	c.ruleSweepNestedSet("C09.handlers")
 	c.ruleOptionAliasing()
 	c.ruleSettable()
 
@@ -1285,6 +1287,7 @@ func runC10(c *Ctx) {
 	c.ruleMutationSinks()
 	c.ruleNoResweep()
 	c.rulePointerValues()
+	c.ruleSweepNoCarriedFlags("C10.ptrvalue")
 	c.ruleExactLeafTypes()
 	c.ruleMarkFiltered("C10.mark")
 
@@ -1513,6 +1516,27 @@ func runC16(c *Ctx) {
 			okA := tb.Of(a[0]).IsParam("1:ctx") && tb.Of(a[1]).String() == "Field[Wrapper](Param(0:ef))" && strings.HasPrefix(tb.Of(a[2]).String(), "Call[invoke encrypt.EventWrapperInfo.EventId](")
 			held := must.At(nw[0])
 			_, locked := held["encrypt.Filter.l"]
+			// ... for EVERY event that brings its own wrapper information: the derivation depends on the
+			// payload alone (and on the early returns before it), not on which operations the filter's
+			// configuration mentions — a tag can ask for encrypt / hmac-sha256 on its own, and such a
+			// value would silently be protected with the filter's key instead of the event's
+			okAlways := false
+			for _, b := range proc.Blocks {
+				cond, ts, _ := condOf(b)
+				ex, isEx := cond.(*ssa.Extract)
+				if !isEx || ex.Index != 1 {
+					continue
+				}
+				ta, isTA := ex.Tuple.(*ssa.TypeAssert)
+				if !isTA || !strings.HasSuffix(typeShort(ta.AssertedType), "EventWrapperInfo") {
+					continue
+				}
+				// the derivation sits on the true side of that very branch, with nothing else in between
+				if ts == nw[0].Block() || (ts.Dominates(nw[0].Block()) && unconditionalBetween(ts, nw[0].Block())) {
+					okAlways = true
+				}
+			}
+			r.Check(okAlways, "C16.event", "Process:NewEventWrapper:every-wrapper-event", p.InstrPos(nw[0]), "the event wrapper is derived for every payload that implements EventWrapperInfo", "the per-event wrapper is derived only under a condition besides `the payload implements EventWrapperInfo` (a shortcut such as `no configured operation needs a wrapper`): a value whose tag itself asks for encrypt or hmac-sha256 is then protected with the filter's wrapper, salt and info instead of the event's")
 			r.Check(okA && locked, "C16.event", "Process:NewEventWrapper", p.InstrPos(nw[0]), "per-event wrapper = NewEventWrapper(ctx, ef.Wrapper, payload.EventId()) computed under the filter lock", "the per-event wrapper is not derived from (ctx, ef.Wrapper, EventId()) under the filter lock (held: "+held.String()+")")
 			// the three options
 			want := map[string]string{"filters/encrypt.WithWrapper": "Extract[0](" + tb.Of(nw[0].(ssa.Value)).String() + ")", "filters/encrypt.WithInfo": "Call[invoke encrypt.EventWrapperInfo.HmacInfo]", "filters/encrypt.WithSalt": "Call[invoke encrypt.EventWrapperInfo.HmacSalt]"}
